@@ -93,24 +93,38 @@ MIN_COUNTERS = {
               "hits_simple": 400, "hits_memory": 1000, "hits_memory_shared": 900, "hits_hdf5": 1300,
               "jacobian_hits_simple": 40, "jacobian_hits_memory": 160, "jacobian_hits_memory_shared": 140,
               "jacobian_hits_hdf5": 200, "invariant_evaluations": 5000, "len_checks": 2200,
-              "caller_array_mutations": 250, "calls_with_mutated_caller_arrays": 220, "reopens_in_process": 140,
+              "caller_array_mutations": 180, "calls_with_mutated_caller_arrays": 180, "reopens_in_process": 140,
               "reopened_lookups": 350, "reopens_in_fresh_interpreter": 100, "hdf5_handle_census": 2000,
-              "tolerance_hits": 190, "answers_from_a_seen_input_within_tolerance": 270,
+              "tolerance_hits": 145, "answers_from_a_seen_input_within_tolerance": 210,
               "histories_with_forced_hash_collisions": 60, "calls_partial_inputs": 900,
-              "differentiated_subset_growths": 450, "entry_listings_checked": 700, "set_cache_changes": 190,
-              "cache_clears": 100, "directed_cases": 232, "square_nonsymmetric_sparse_blocks_served_from_cache": 600,
-              "rectangular_sparse_blocks_served_from_cache": 850},
+              "differentiated_subset_growths": 450, "entry_listings_checked": 700, "set_cache_changes": 130,
+              "cache_clears": 75, "directed_cases": 268, "square_nonsymmetric_sparse_blocks_served_from_cache": 600,
+              "rectangular_sparse_blocks_served_from_cache": 850,
+              "linearizations_without_execution": 160,
+              "jacobian_only_entries_completed_after_newer_entries_memory": 35,
+              "jacobian_only_entries_completed_after_newer_entries_memory_shared": 26,
+              "jacobian_only_entries_completed_after_newer_entries_hdf5": 40,
+              "outputs_only_entries_completed_after_newer_entries_memory": 120,
+              "outputs_only_entries_completed_after_newer_entries_memory_shared": 90,
+              "outputs_only_entries_completed_after_newer_entries_hdf5": 120},
     "thorough": {"outputs_compared": 90000, "jacobians_compared": 45000, "run_rule_evaluations": 35000,
-                 "hits_simple": 8000, "hits_memory": 22000, "hits_memory_shared": 19000, "hits_hdf5": 29000,
-                 "jacobian_hits_simple": 1000, "jacobian_hits_memory": 3800, "jacobian_hits_memory_shared": 3100,
+                 "hits_simple": 6500, "hits_memory": 22000, "hits_memory_shared": 19000, "hits_hdf5": 29000,
+                 "jacobian_hits_simple": 780, "jacobian_hits_memory": 3800, "jacobian_hits_memory_shared": 3100,
                  "jacobian_hits_hdf5": 4600, "invariant_evaluations": 110000, "len_checks": 48000,
-                 "caller_array_mutations": 5400, "calls_with_mutated_caller_arrays": 5000, "reopens_in_process": 3000,
+                 "caller_array_mutations": 3600, "calls_with_mutated_caller_arrays": 3600, "reopens_in_process": 2300,
                  "reopened_lookups": 8000, "reopens_in_fresh_interpreter": 2100, "hdf5_handle_census": 46000,
-                 "tolerance_hits": 4200, "answers_from_a_seen_input_within_tolerance": 6200,
+                 "tolerance_hits": 3300, "answers_from_a_seen_input_within_tolerance": 4700,
                  "histories_with_forced_hash_collisions": 1000, "calls_partial_inputs": 20000,
-                 "differentiated_subset_growths": 9500, "entry_listings_checked": 15000, "set_cache_changes": 4000,
-                 "cache_clears": 2100, "directed_cases": 232, "square_nonsymmetric_sparse_blocks_served_from_cache": 4700,
-                 "rectangular_sparse_blocks_served_from_cache": 14000},
+                 "differentiated_subset_growths": 9500, "entry_listings_checked": 15000, "set_cache_changes": 2900,
+                 "cache_clears": 1500, "directed_cases": 268, "square_nonsymmetric_sparse_blocks_served_from_cache": 4700,
+                 "rectangular_sparse_blocks_served_from_cache": 14000,
+                 "linearizations_without_execution": 3200,
+                 "jacobian_only_entries_completed_after_newer_entries_memory": 640,
+                 "jacobian_only_entries_completed_after_newer_entries_memory_shared": 470,
+                 "jacobian_only_entries_completed_after_newer_entries_hdf5": 800,
+                 "outputs_only_entries_completed_after_newer_entries_memory": 2500,
+                 "outputs_only_entries_completed_after_newer_entries_memory_shared": 1850,
+                 "outputs_only_entries_completed_after_newer_entries_hdf5": 2900},
 }
 SHARD_TIMEOUT = {"quick": 900, "thorough": 3600}
 
@@ -494,10 +508,12 @@ class Runner:
                 f"that were edited in place after the call (np.shares_memory)")
 
     # ------------------------------------------------------------------ one gemseo call on both disciplines
-    def call(self, step, op, value, args_c, lin):
-        """``lin``: None (execute), "all" (compute_all_jacobians) or "diff" (differentiated subsets)."""
+    def call(self, step, op, value, args_c, lin, noexec=False):
+        """``lin``: None (execute), "all" (compute_all_jacobians) or "diff" (differentiated subsets);
+        ``noexec``: ``linearize(..., execute=False)``."""
         rep, C, T = self.rep, self.C, self.T
         k = key_of(self.dc, value)
+        pre = self.exact_entry_state(value)
         # answers may stem from entries filed under the largest tolerance used so far in this cache epoch
         t_acc = max(self.tol, self.tol_max_in_epoch)
         n_jac0 = C.n_jac
@@ -507,12 +523,14 @@ class Runner:
             rt = T.execute(args_t)
             jt = None
         else:
-            jt = T.linearize(args_t, compute_all_jacobians=(lin == "all"))
+            jt = T.linearize(args_t, compute_all_jacobians=(lin == "all"), execute=not noexec)
             jt = {o: {i: dense(b).copy() for i, b in row.items()} for o, row in jt.items()}
             rt = T.io.data
         # after linearize() the self-coupled variables of local_data are reset to their input values
-        cmp_names = self.out_names if lin is None else [n for n in self.out_names if n not in self.in_names]
-        out_t = {n: np.array(rt[n], copy=True) for n in self.out_names}
+        # (without a preliminary execution local_data holds no outputs of this input at all)
+        cmp_names = (self.out_names if lin is None else
+                     [] if noexec else [n for n in self.out_names if n not in self.in_names])
+        out_t = {n: (np.array(rt[n], copy=True) if n in rt else None) for n in self.out_names}
         ref_out = closed_outputs(self.f, self.dc, value)
         if any(not same(out_t[n], ref_out[n]) for n in cmp_names):
             raise HarnessError("uncached twin differs from the closed form")
@@ -530,7 +548,7 @@ class Runner:
                 rc = C.execute(args_c)
                 jc = None
             else:
-                jc = C.linearize(args_c, compute_all_jacobians=(lin == "all"))
+                jc = C.linearize(args_c, compute_all_jacobians=(lin == "all"), execute=not noexec)
                 rc = C.io.data
             out_c = {n: (np.array(rc[n], copy=True) if n in rc else None) for n in self.out_names}
             if jc is not None:
@@ -624,7 +642,7 @@ class Runner:
             self.ran.add(rk)
         if len(new_runs) > 1:
             rep.observe("body-ran-more-than-once-in-one-call", {"policy": self.pol, "runs": len(new_runs)})
-        if self.kind != "none" and not ran_now:
+        if self.kind != "none" and not ran_now and not noexec:
             rep.count("calls_served_without_body_run")
             rep.count(f"hits_{self.kind}")
             if not seen_before:
@@ -637,7 +655,46 @@ class Runner:
                 rep.count("simple_cache_hit_on_other_input")
         self.last_key = k
         self.seen.setdefault(k, {n: value[n].copy() for n in self.in_names})
+        self.count_completions(pre, value)
         self.after_call(step)
+
+    def exact_entry_state(self, value):
+        """(index, has outputs, has Jacobian, max_index) of the entry stored for exactly ``value`` in a full cache, or
+        None.  Reads the private state only (hash index, groups of the entry)."""
+        if self.kind not in FULL:
+            return None
+        c = self.C.cache
+        idxs = dict(c._hashes_to_indices.items()).get(int(current_hash()(value)))
+        if idxs is None:
+            return None
+        k = key_of(self.dc, value)
+        for i in np.atleast_1d(idxs):
+            inp = c._read_data(int(i), c.Group.INPUTS)
+            if set(inp) == set(self.in_names) and key_of(self.dc, inp) == k:
+                # _has_group() only tests the presence of the group: the monitor never decodes stored data
+                return (int(i), bool(c._has_group(int(i), c.Group.OUTPUTS)), bool(c._has_group(int(i), c.Group.JACOBIAN)),
+                        int(c._max_index.value))
+        return None
+
+    def count_completions(self, pre, value):
+        """An entry that held only a Jacobian (only outputs) got its outputs (Jacobian) during this call, while newer
+        entries existed: the write must go to the entry of the inputs, not to the newest one."""
+        if pre is None:
+            return
+        post = self.exact_entry_state(value)
+        if post is None or post[0] != pre[0]:
+            return
+        newer = pre[3] > pre[0]
+        if pre[2] and not pre[1] and post[1]:
+            self.rep.count("jacobian_only_entries_completed_with_outputs")
+            if newer:
+                self.rep.count("jacobian_only_entries_completed_after_newer_entries")
+                self.rep.count(f"jacobian_only_entries_completed_after_newer_entries_{self.kind}")
+        if pre[1] and not pre[2] and post[2]:
+            self.rep.count("outputs_only_entries_completed_with_jacobian")
+            if newer:
+                self.rep.count("outputs_only_entries_completed_after_newer_entries")
+                self.rep.count(f"outputs_only_entries_completed_after_newer_entries_{self.kind}")
 
     def count_served_blocks(self, req_out, req_in, jt):
         """Per container: Jacobian blocks that were served by the cache (no recomputation) and compared by value."""
@@ -788,6 +845,15 @@ class Runner:
                 return
             v = self.prepared(op[1])
             self.call(step, name, v, self.call_args(v, op[2]), "all" if name == "lin_all" else "diff")
+        elif name == "lin_noexec":
+            # linearize(execute=False) is only meaningful when the discipline does not hold the Jacobian of another
+            # input as "current" (state left by a cache hit): then it would be returned as it is, by design of the flag
+            if getattr(self.C, "_has_jacobian", False):
+                self.rep.count("lin_noexec_skipped_after_a_cache_hit")
+                return
+            v = self.prepared(op[1])
+            self.rep.count("linearizations_without_execution")
+            self.call(step, name, v, self.call_args(v, "full"), "all", noexec=True)
         elif name == "add_diff":
             for d in (self.C, self.T):
                 d.add_differentiated_inputs(list(op[1]))
@@ -962,7 +1028,7 @@ def gen_policy(rng, hid, epoch=0, allow_none=True):
 def gen_pool(rng, dc, tol):
     ins = dc["ins"]
     pool, meta, parents = [], [], {}
-    for _ in range(int(rng.integers(4, 7))):
+    for _ in range(int(rng.integers(5, 9))):
         p = {}
         for name, s in ins:
             if name in dc["defaults"] and rng.random() < 0.5:
@@ -1001,6 +1067,8 @@ def gen_case(rng, hid):
     have_diff = False
     kind = pol["type"]
 
+    used = set()  # pool indices already requested in the current cache epoch (as far as the generator knows)
+
     def pick():
         if recent and rng.random() < 0.55:
             i = recent[int(rng.integers(len(recent)))]
@@ -1008,7 +1076,40 @@ def gen_case(rng, hid):
             i = int(rng.integers(len(pool)))
         recent.append(i)
         del recent[:-6]
+        used.add(i)
         return i
+
+    def fresh(n):
+        """``n`` distinct pool inputs, not requested yet in this epoch and far from each other when possible."""
+        base = [i for i in range(len(pool)) if i not in parents]
+        unused = [i for i in base if i not in used]
+        unused = [unused[j] for j in rng.permutation(len(unused))]
+        cand = unused + [i for i in base if i in used] + list(parents)
+        out = cand[:n]
+        used.update(out)
+        return out
+
+    def completion_motif():
+        """An entry that first holds a Jacobian only (outputs only) is completed after 1-3 other entries were made."""
+        others_n = int(rng.integers(1, 4))
+        if rng.random() < 0.5:
+            f0, x, *others = fresh(2 + others_n)
+            # the first execution is a miss (new input): the discipline holds no "current" Jacobian afterwards
+            m = [["exec", f0, "full"], ["lin_noexec", x]]
+            m += [["exec", o, mode()] if rng.random() < 0.6 else ["lin_all", o, mode()] for o in others]
+            m += [["exec", x, mode()]]
+            m += [["exec", o, "full"] for o in others] + [["exec", x, "full"]]
+            if rng.random() < 0.5:
+                m += [["lin_all", x, "full"]] + [["lin_all", o, "full"] for o in others[:1]]
+        else:
+            x, *others = fresh(1 + others_n)
+            m = [["exec", x, mode()]]
+            m += [["exec", o, mode()] if rng.random() < 0.6 else ["lin_all", o, mode()] for o in others]
+            m += [["lin_all", x, mode()]]
+            m += [["lin_all", o, "full"] if rng.random() < 0.5 else ["exec", o, "full"] for o in others]
+            m += [["lin_all", x, "full"], ["exec", x, "full"]]
+        recent.extend([x, *others])
+        return m
 
     def mode():
         r = rng.random()
@@ -1016,7 +1117,9 @@ def gen_case(rng, hid):
 
     while len(ops) < n_ops:
         r = rng.random()
-        if chains and rng.random() < 0.04:
+        if rng.random() < 0.06:
+            ops.extend(completion_motif())
+        elif chains and rng.random() < 0.04:
             # near-duplicate chain a - a' - a'': Jacobian asked at the middle one, then the far end twice
             a0, a1, a2 = chains[int(rng.integers(len(chains)))]
             ops.extend([["exec", a0, "full"], ["lin_all", a1, "full"], ["exec", a2, "full"], ["exec", a2, mode()]])
@@ -1065,9 +1168,11 @@ def gen_case(rng, hid):
             ops.append(["set_cache", pol2])
             kind = pol2["type"]
             slots.clear()
+            used.clear()
         elif r < 0.94:
             ops.append(["clear"])
             slots.clear()
+            used.clear()
         elif r < 0.96:
             ops.append(["set_tol", float(rng.choice([0.0, 1e-9, 1e-2]))])
     return {"disc": dc, "policy": pol, "pool": pool, "ops": ops}
@@ -1086,7 +1191,7 @@ def nontrivial(case):
     seen, slots = set(), {}
     for op in case["ops"]:
         i = None
-        if op[0] in ("exec", "lin_all", "lin"):
+        if op[0] in ("exec", "lin_all", "lin", "lin_noexec"):
             i = op[1]
         elif op[0] in ("own_exec", "own_lin"):
             i = op[2]
@@ -1156,6 +1261,30 @@ def directed_cases():
                                     ["exec", 1, "full"], ["own_again", 1, "lin_all"], ["add_diff", ["s"], ["s"]],
                                     ["lin", 0, "full"], ["add_diff", ["x0"], ["y0"]], ["lin", 0, "full"], ["reopen"],
                                     ["lin", 1, "full"], ["clear"], ["exec", 0, "full"], ["exec", 0, "full"], ["entries"]]})
+    # D7: an entry that holds a Jacobian only (linearize(execute=False) at a new input) or outputs only is completed
+    #     after other entries were created; the completed and the newer entries are then read back
+    for kind in FULL:
+        for tol in (0.0, 1e-2):
+            for collide in (0, 1):
+                def pol7():
+                    nonlocal k
+                    k += 1
+                    p = {"type": kind, "tol": tol}
+                    if collide:
+                        p["collide"] = collide
+                    if kind == "hdf5":
+                        p["file"] = f"c05_directed_{k % 2}.h5"
+                        p["node"] = f"d{k}" if k % 2 else f"grp{k}/sub/node"
+                    return p
+                jac_first = [["lin_noexec", 0], ["exec", 1, "full"], ["lin_all", 2, "full"], ["exec", 0, "full"],
+                             ["exec", 1, "full"], ["exec", 2, "full"], ["exec", 0, "partial"], ["lin_all", 0, "full"],
+                             ["reopen"], ["exec", 1, "full"], ["exec", 0, "full"], ["lin_all", 2, "full"], ["entries"]]
+                out_first = [["exec", 0, "full"], ["exec", 1, "full"], ["lin_all", 2, "full"], ["lin_all", 0, "full"],
+                             ["exec", 1, "full"], ["lin_all", 0, "full"], ["lin_all", 2, "full"], ["reopen"],
+                             ["lin_all", 0, "full"], ["lin_all", 1, "full"], ["entries"]]
+                out.append({"disc": dc, "policy": pol7(), "pool": pool, "ops": jac_first})
+                out.append({"disc": dc, "policy": pol7(), "pool": pool, "ops": out_first})
+                out.append({"disc": dcs, "policy": pol7(), "pool": pool_s, "ops": jac_first[:6] + jac_first[7:]})
     # D5: every sparse container, square non-symmetric (y0|x0: 2x2, y1|x1: 3x3) and rectangular blocks, every policy;
     #     Jacobian served by the cache, by the re-opened cache and (end of shard) by a fresh interpreter
     ins5, outs5 = [["x0", 2], ["x1", 3]], [["y0", 2], ["y1", 3]]
